@@ -92,20 +92,6 @@ func (s *State) clone() *State {
 	return n
 }
 
-type LoopAnn struct {
-	Unroll int
-	Invs   []string // names of invariant functions
-}
-
-type Oblig struct {
-	Name   string
-	Script string
-	Triv   bool
-	Result string
-	Ms     int64
-	Solver string
-}
-
 type Engine struct {
 	prog    *ssa.Program
 	pkgs    []*ssa.Package
@@ -129,6 +115,15 @@ type Engine struct {
 	boxedByRef map[string]IfaceV
 	sess      *session
 	fchecks   int
+	curT      *Target
+	curRun    *TargetRun
+	all       map[string]*ssa.Function
+	siteOrd   map[ssa.Instruction]int
+	inlined   map[string]bool
+	stubsUsed map[string]bool
+	pathSeq   int
+	curInstr  ssa.Instruction
+	curFrame  *Frame
 }
 
 func (e *Engine) fresh(prefix string) string { e.n++; return fmt.Sprintf("%s!%d", prefix, e.n) }
@@ -200,6 +195,9 @@ func (e *Engine) oblig(s *State, name string, cond Term) {
 	if s.spec > 0 {
 		return
 	}
+	if strings.HasPrefix(name, "safe.") && e.curInstr != nil {
+		name += e.site(e.curInstr)
+	}
 	full := e.curFn + "#" + name
 	for _, p := range s.pc {
 		if p.S == cond.S {
@@ -207,16 +205,34 @@ func (e *Engine) oblig(s *State, name string, cond Term) {
 			break
 		}
 	}
+	bounded := e.curT != nil && e.curT.D.Kind == "bounded"
 	if cond.C != nil && cond.C.Sign() != 0 {
-		e.obs = append(e.obs, &Oblig{Name: full, Triv: true, Result: "unsat"})
+		e.obs = append(e.obs, &Oblig{T: e.curT, Name: full, Triv: true, Result: "unsat", Expect: "unsat", Bounded: bounded, run: e.curRun})
 		return
 	}
 	var b strings.Builder
 	b.WriteString(e.script(s, cond))
 	b.WriteString("(assert (not " + cond.S + "))\n(check-sat)\n")
-	e.obs = append(e.obs, &Oblig{Name: full, Script: b.String()})
+	e.obs = append(e.obs, &Oblig{T: e.curT, Name: full, Script: b.String(), Expect: "unsat", Bounded: bounded, run: e.curRun, st: s, npc: len(s.pc), cond: cond})
 	// after checking, the condition may be assumed on this path (standard)
 	e.assume(s, cond)
+}
+
+// site names a safety obligation after the function it sits in and its ordinal among the instructions of the
+// same kind in that function (stable under edits elsewhere).
+func (e *Engine) site(in ssa.Instruction) string {
+	fn := in.Parent()
+	if _, ok := e.siteOrd[in]; !ok {
+		cnt := map[string]int{}
+		for _, b := range fn.Blocks {
+			for _, x := range b.Instrs {
+				k := fmt.Sprintf("%T", x)
+				e.siteOrd[x] = cnt[k]
+				cnt[k]++
+			}
+		}
+	}
+	return fmt.Sprintf("@%s[%d]", shortName(fn.String()), e.siteOrd[in])
 }
 
 var symRe = regexp.MustCompile(`[A-Za-z_$][A-Za-z0-9_$.!]*`)
